@@ -62,9 +62,15 @@ func buildVC(w *World, u *Unit) (ex *Exec, refused string) {
 			refused = fmt.Sprintf("internal error: %v\n%s", r, debug.Stack())
 		}
 	}()
+	var discKeys map[string]string
 	run := func(discover bool, mods map[string]map[string]bool, all map[string]bool) *Exec {
 		ex := newExec(w, u)
 		ex.discover = discover
+		// heap keys met by the discovery pass are known from the start of the real pass (a loop must be able to
+		// havoc a key that is first used inside its body)
+		for k, s := range discKeys {
+			ex.keySort[k] = s
+		}
 		if mods != nil {
 			ex.loopMods = mods
 			ex.loopAll = all
@@ -85,6 +91,13 @@ func buildVC(w *World, u *Unit) (ex *Exec, refused string) {
 			bind = append(bind, v)
 			ex.preAssume = append(ex.preAssume, not(eq(v.L[0], "0")))
 		}
+		// auxiliary variables local to this function start with their declared initial value
+		for _, g := range u.C.Ghosts {
+			if g.Init != "" {
+				ex.registerKey("X|"+g.Name, g.Sort)
+				ex.preAssume = append(ex.preAssume, eq(ex.heapGet(st, "X|"+g.Name, g.Sort), g.Init))
+			}
+		}
 		// preconditions
 		fr0 := &frame{ex: ex, fn: fn, args: args, bind: bind, c: u.C, entry: st, loops: computeLoops(fn)}
 		for _, cl := range u.C.Requires {
@@ -95,6 +108,7 @@ func buildVC(w *World, u *Unit) (ex *Exec, refused string) {
 		return ex
 	}
 	d := run(true, nil, nil)
+	discKeys = d.keySort
 	ex = run(false, d.loopMods, d.loopAll)
 	return ex, ""
 }
